@@ -85,14 +85,17 @@ func genPair(d pairDesc, rng *rand.Rand, quick bool) []*pairCase {
 		mk("check", "n=2,P1=P0,Q1=-Q0,product=1", 2, []*big.Int{a, a}, []*big.Int{b, neg(b)}, -1, -1, "", -1, true)
 	}
 	// multi-pairings with more pairs than the hand-unrolled first iterations cover
-	native := d.tag == "bls12377" || d.tag == "bls24315"
 	for _, n := range []int{4, 5, 6} {
 		if n == 6 && quick {
 			continue
 		}
-		if !native && d.tag == "bw6761" && n == 6 {
-			continue // ≈ 7 in-circuit BW6-761 pairings: beyond the thorough budget
+		// emulated multi-pairings cost ≈ n × (20 s BN254, 55 s BLS12-381, 120 s
+		// BW6-761) in the test engine under load: BN254 runs n = 4, 5, 6 in full,
+		// BLS12-381 n = 4, 5, BW6-761 n = 4 without the separate MillerLoop case
+		if d.tag == "bw6761" && n > 4 || d.tag == "bls12381" && n > 5 {
+			continue
 		}
+		slim := d.tag == "bw6761" || (d.tag == "bls12381" && n == 5)
 		as := make([]*big.Int, n)
 		bs := make([]*big.Int, n)
 		acc := new(big.Int)
@@ -112,8 +115,10 @@ func genPair(d pairDesc, rng *rand.Rand, quick bool) []*pairCase {
 			ra[i], rb[i] = rk(), rk()
 		}
 		mk("pair", fmt.Sprintf("n=%d,expected=native", n), n, ra, rb, -1, -1, "", -1, true)
-		mk("mlfe", fmt.Sprintf("n=%d,MillerLoop+FinalExponentiation=native-Pair", n), n, ra, rb, -1, -1, "", -1, true)
-		if n == 4 {
+		if !slim {
+			mk("mlfe", fmt.Sprintf("n=%d,MillerLoop+FinalExponentiation=native-Pair", n), n, ra, rb, -1, -1, "", -1, true)
+		}
+		if n == 4 && !slim {
 			mk("pair", "n=4,expected=wrong", n, ra, rb, -1, -1, "wrong-expected", -1, true)
 		}
 	}
